@@ -77,7 +77,7 @@ def wrap_req(allowed, expected, data, sizes):
 
 
 def fault_req(allowed, expected, data, sizes, faults):
-    fl = ','.join('%s@%d' % (n, k) for n, k in faults) or '-'
+    fl = ','.join('%s@%d' % (n, k) for n, k in model_faults(faults, expected)) or '-'
     return req('fault', names_field(allowed), expected or '-', insp_impl.content_field(data),
                sizes_field(sizes), fl)
 
@@ -204,7 +204,11 @@ def wrap_trace(allowed, data, sizes):
             escaped = type(e).__name__
             break
         decs.append(decision())
-    w.close()
+    close_escaped = None
+    try:
+        w.close()
+    except Exception as e:               # close() has no reason to raise at all
+        close_escaped = type(e).__name__
     final = decision()
     matches = {}
     for i in w._inspectors:
@@ -212,7 +216,7 @@ def wrap_trace(allowed, data, sizes):
             matches[i.NAME] = bool(i.format_match)
         except Exception as e:
             matches[i.NAME] = 'EXC:' + type(e).__name__
-    return {'decisions': decs, 'final': final, 'escaped': escaped, 'matches': matches,
+    return {'decisions': decs, 'final': final, 'escaped': escaped, 'close_escaped': close_escaped, 'matches': matches,
             'names': sorted(i.NAME for i in w._inspectors)}
 
 
@@ -224,11 +228,66 @@ class Injected(RuntimeError):
     pass
 
 
+EXC_TYPES = ['RuntimeError', 'struct.error', 'ValueError', 'KeyError', 'IndexError', 'ImageFormatError', 'OSError',
+             'Exception', 'Custom', 'TypeError', 'AttributeError', 'ZeroDivisionError', 'AssertionError', 'EOFError',
+             'LookupError', 'ArithmeticError', 'MemoryError', 'NotImplementedError']
+_INJ = {}
+
+
+def injected_class(tname):
+    """a subclass of the named exception type, marked as injected (struct.error, ImageFormatError and a
+    plain `class Custom(Exception)` included: the property speaks of any failure inside an inspector)"""
+    if tname in _INJ:
+        return _INJ[tname]
+    import builtins
+    if tname == 'struct.error':
+        base = struct.error
+    elif tname == 'ImageFormatError':
+        base = fi().ImageFormatError
+    elif tname == 'Custom':
+        base = type('Custom', (Exception,), {})
+    else:
+        base = getattr(builtins, tname)
+    if base is RuntimeError:
+        cls = Injected
+    else:
+        cls = type('Injected_' + tname.replace('.', '_'), (base,), {'injected': True})
+    _INJ[tname] = cls
+    return cls
+
+
+Injected.injected = True
+
+
+def norm_fault(f):
+    """(name, k) | (name, k, kind) -> (name, k, kind); kind is 'eat:<type>' (raised in front of eat_chunk on the
+    inspector's k-th feed), 'post:<type>' (raised by post_process inside the k-th eat_chunk, after the
+    position counter and the regions were updated), or 'complete' / 'format_match' (that property raises
+    whenever it is read once the inspector has been fed its k-th chunk)"""
+    f = tuple(f)
+    if len(f) == 2:
+        return (f[0], int(f[1]), 'eat:RuntimeError')
+    return (f[0], int(f[1]), f[2])
+
+
+def model_faults(faults, expected):
+    """what the stateless `fault` request can express: every eat/post fault as name@k (the model's fault is
+    type-agnostic).  A fault in the complete / format_match property of a NON-expected inspector is dropped:
+    the model's processLoop never evaluates those for other inspectors, so such a fault must be invisible."""
+    out = []
+    for name, k, kind in map(norm_fault, faults):
+        if kind.startswith(('eat:', 'post:')):
+            out.append((name, k))
+        elif name == expected:
+            raise ValueError('a property fault of the expected inspector is not expressible in the fault request')
+    return sorted(set(out))
+
+
 def pipe_trace(allowed, expected, data, sizes, faults, iterator=False, via_iter_protocol=False):
-    """Stream through a real InspectWrapper with faults injected in front of the inspectors'
-    eat_chunk.  Everything the C06 oracle needs is recorded here, on the implementation only."""
+    """Stream through a real InspectWrapper with faults injected into the inspectors (see norm_fault).
+    Everything the C06 oracle needs is recorded here, on the implementation only."""
     F = fi()
-    faults = set(faults)
+    faults = [norm_fault(f) for f in faults]
     chunks = insp_impl.cut(data, sizes)
     yielded = [0]
     if iterator:
@@ -242,12 +301,48 @@ def pipe_trace(allowed, expected, data, sizes, faults, iterator=False, via_iter_
     w = F.InspectWrapper(src, expected_format=expected, allowed_formats=allowed or None)
     cur = [0]
     fed_after_finish = []
+    prop_reads = []       # (name, property, chunk index, raised?) - reads of a fault-carrying property
     events = {}           # name -> [(chunk index, 'ok' | exception object, complete, match)]
     for i in w._inspectors:
         events[i.NAME] = []
+        mine = [f for f in faults if f[0] == i.NAME]
+        eatf = {k: kind for (_n, k, kind) in mine if kind.startswith('eat:')}
+        postf = {k: kind for (_n, k, kind) in mine if kind.startswith('post:')}
+        propf = {}
+        for (_n, k, kind) in mine:
+            if kind in ('complete', 'format_match'):
+                exc = injected_class('RuntimeError' if kind == 'complete' else 'ValueError')(
+                    'injected into %s.%s from feed %d' % (i.NAME, kind, k))
+                if kind not in propf or k < propf[kind][0]:
+                    propf[kind] = (k, exc)
+        orig = type(i)
+        feeds = [0]
 
-        def make(i, real):
-            feeds = [0]
+        def make(i, real, eatf, postf, propf, orig, feeds):
+            arm = [None]
+            real_post = i.post_process
+
+            def post_process():
+                if arm[0] is not None:
+                    exc, arm[0] = arm[0], None
+                    raise exc
+                return real_post()
+            if postf:
+                i.post_process = post_process
+
+            def active(prop):
+                return prop in propf and feeds[0] > propf[prop][0]
+
+            def observed():
+                """what _process_chunk would see when it reads complete, then format_match"""
+                if active('complete'):
+                    return propf['complete'][1], None
+                comp = bool(orig.complete.fget(i))
+                if not comp:
+                    return comp, None
+                if active('format_match'):
+                    return comp, propf['format_match'][1]
+                return comp, bool(orig.format_match.fget(i))
 
             def eat(chunk):
                 k = feeds[0]
@@ -255,23 +350,36 @@ def pipe_trace(allowed, expected, data, sizes, faults, iterator=False, via_iter_
                 if i._finished:
                     # the wrapper finished this inspector and still feeds it: not a fault of the inspector
                     fed_after_finish.append((i.NAME, cur[0]))
-                if (i.NAME, k) in faults:
-                    exc = Injected('injected %s@%d' % (i.NAME, k))
+                if k in eatf:
+                    exc = injected_class(eatf[k].split(':', 1)[1])('injected %s@%d' % (i.NAME, k))
                     events[i.NAME].append((cur[0], exc, None, None))
                     raise exc
+                if k in postf:
+                    arm[0] = injected_class(postf[k].split(':', 1)[1])('injected into post_process %s@%d' % (i.NAME, k))
+                    armed = arm[0]
                 try:
                     r = real(chunk)
                 except Exception as e:
                     events[i.NAME].append((cur[0], e, None, None))
                     raise
                 try:
-                    cm = (bool(i.complete), bool(i.format_match))
+                    cm = observed()
                 except Exception as e:       # format_match of a healthy inspector never raises
                     cm = (None, e)
                 events[i.NAME].append((cur[0], 'ok', cm[0], cm[1]))
                 return r
+
+            if propf:
+                def mkprop(prop):
+                    def get(self):
+                        if active(prop):
+                            prop_reads.append((i.NAME, prop, cur[0], True))
+                            raise propf[prop][1]
+                        return getattr(orig, prop).fget(self)
+                    return property(get)
+                i.__class__ = type('Faulty' + orig.__name__, (orig,), {p: mkprop(p) for p in propf})
             return eat
-        i.eat_chunk = make(i, i.eat_chunk)
+        i.eat_chunk = make(i, i.eat_chunk, eatf, postf, propf, orig, feeds)
     out = []
     end = ('done', None)
     for n, c in zip(sizes, chunks):
@@ -298,9 +406,33 @@ def pipe_trace(allowed, expected, data, sizes, faults, iterator=False, via_iter_
         else:
             w.close()
     return {'chunks': chunks, 'out': out, 'end': end, 'events': events, 'consumed': consumed,
-            'fed_after_finish': fed_after_finish,
+            'fed_after_finish': fed_after_finish, 'prop_reads': prop_reads,
             'errored': {i.NAME for i in w._errored_inspectors},
             'names': sorted(i.NAME for i in w._inspectors), 'finished': w._finished}
+
+
+def render_trace(t):
+    """the driver's canonical `fault` reply, rendered from an implementation trace (an injected exception of
+    any type is the model's one fault kind, shown as RuntimeError)"""
+    import zlib
+    F = fi()
+    end, exc = t['end']
+    if end == 'raised':
+        if getattr(exc, 'injected', False):
+            e = 'raised:RuntimeError'
+        elif isinstance(exc, F.ImageFormatError) and 'does not match expected format' in str(exc):
+            e = 'mismatch'
+        else:
+            e = 'raised:' + insp_impl.errname(exc)
+    else:
+        e = end
+    joined = b''.join(t['out'])
+    head = 'out=%d:%d chunks=%d end=%s' % (len(joined), zlib.adler32(joined) & 0xffffffff, len(t['out']), e)
+    order = list(F.ALL_FORMATS)
+    per = ';'.join('%s%s:%s' % (n, '!' if n in t['errored'] else '',
+                                ','.join(str(k) for (k, _r, _c, _m) in t['events'][n]))
+                   for n in sorted(t['names'], key=order.index))
+    return head + '\t' + per
 
 
 # --------------------------------------------------------------------------
@@ -427,7 +559,13 @@ def _pte_kinds(rng):
     return [
         ('e', dict(boot=0, ostype=0, chs=(0, 0, 0), lba=0, size=0)),
         ('E', dict(boot=0x80, ostype=0, chs=(1, 2, 3), lba=rng.getrandbits(32), **junk)),   # empty, junk fields
-        ('x', dict(boot=rng.choice([1, 0x40, 0x7f, 0x81, 0xff]), ostype=0, lba=0)),          # empty, bad boot flag
+        ('x', dict(boot=rng.choice([1, 0x40, 0x7f, 0x81, 0xff]), ostype=0, lba=0)),          # type 0 with a length, bad boot flag
+        # unused slots (type 0 and zero sectors) with an invalid boot indicator: all-zero otherwise / stale CHS+LBA
+        ('y', dict(boot=rng.choice([1, 0x0a, 0x40, 0x7f, 0x81, 0xfe, 0xff]), ostype=0, chs=(0, 0, 0), end=(0, 0, 0),
+                   lba=0, size=0)),
+        ('w', dict(boot=rng.choice([1, 0x0a, 0x7f, 0x81, 0xff]), ostype=0, chs=(rng.randrange(256), rng.randrange(256), 7),
+                   end=(rng.randrange(256), 0xff, 0xff), lba=rng.choice([0, 1, 63, 2048, rng.getrandbits(32)]), size=0)),
+        ('F', dict(boot=0x80, ostype=0, chs=(rng.randrange(256), 2, 0), end=(1, 2, 3), lba=rng.getrandbits(32), size=0)),
         ('L', dict(boot=0, ostype=rng.choice([0x83, 0x07, 0x0c, 0xa5, 0xef, 0xff, 1]), lba=rng.getrandbits(32), **junk)),
         ('B', dict(boot=0x80, ostype=0x83, chs=(rng.randrange(256), 2, 0), lba=2048, **junk)),
         ('X', dict(boot=rng.choice([1, 2, 0x08, 0x7f, 0x81, 0xfe, 0xff]), ostype=0x83, lba=2048)),
@@ -441,11 +579,11 @@ def _pte_kinds(rng):
 
 def gpt_expect(tags):
     """by construction: boot flags valid; every protective entry well-formed, first and alone; >= 1 partition"""
-    if any(t in 'xX' for t in tags):
+    if any(t in 'xywX' for t in tags):          # an invalid boot indicator, on whatever kind of entry
         return 'unsafe'
     if any(t in 'CA' for t in tags):
         return 'unsafe'
-    nonempty = [i for i, t in enumerate(tags) if t not in 'eEx']
+    nonempty = [i for i, t in enumerate(tags) if t not in 'eExywF']
     if any(t in 'GH' for t in tags) and nonempty != [0]:
         return 'unsafe'
     if not nonempty:
@@ -462,17 +600,21 @@ def gpt_family(rng, quick):
         combos.append(tags)
     for tags in itertools.product('eB', repeat=4):
         combos.append(tags)
-    allk = 'eExLBXGHCA'
+    allk = 'eExywFLBXGHCA'
+    # every single deviation from clean tables (protective; one partition first / in the middle; two partitions)
+    for base0 in ('Geee', 'Leee', 'eeBe', 'LeeB', 'eeeL'):
+        for pos in range(4):
+            for t in allk:
+                base = list(base0)
+                base[pos] = t
+                combos.append(tuple(base))
     if quick:
         for _ in range(140):
             combos.append(tuple(rng.choice(allk) for _ in range(4)))
-        for pos in range(4):                      # every single deviation from the clean protective table
-            for t in allk:
-                base = ['G', 'e', 'e', 'e']
-                base[pos] = t
-                combos.append(tuple(base))
     else:
-        combos += list(itertools.product(allk, repeat=4))
+        combos += list(itertools.product('eExLBXGHCA', repeat=4))
+        for _ in range(3000):
+            combos.append(tuple(rng.choice(allk) for _ in range(4)))
     seen = set()
     for tags in combos:
         if tags in seen:
@@ -556,6 +698,22 @@ def vmdk_family(rng, quick):
         add('extent-path-extra-%d' % i, 'unsafe', extra=(e,))
     for i, e in enumerate(EXTENTS_OK):
         add('extent-ok-%d' % i, 'clean', extent=e)
+    # every ASCII control byte (and DEL) inside an LF-delimited line: the descriptor's line separator is LF
+    # only, so an extent line stays ONE extent line (naming a path -> unsafe) and a comment line stays a
+    # comment (no extent -> unsafe), whatever follows the control byte
+    ctrls = [c for c in range(1, 32) if c != 10] + [127]
+    tails = ['ddb/../../../etc/passwd', '#/etc/passwd', 'file=/etc/passwd', 'ddb.x = "/dev/sda', 'RW 1 SPARSE /x']
+    for c in ctrls:
+        ch = chr(c)
+        for tail in ([rng.choice(tails[:3])] if quick else tails):
+            add('ctrl-%02x-extent-path-%s' % (c, tail[:3].strip()), 'unsafe',
+                extent='RW 2048 SPARSE "x%s%s"' % (ch, tail))
+        add('ctrl-%02x-comment-then-extent' % c, 'unsafe', extent='# note%sRW 2048 SPARSE "disk.vmdk"' % ch)
+        if not quick or rng.random() < 0.4:
+            add('ctrl-%02x-second-extent-path' % c, 'unsafe',
+                extra=('RDONLY 1 FLAT "a.vmdk"%s%s' % (ch, rng.choice(['ddb /etc/passwd', '# /etc', 'x=/'])),))
+            add('ctrl-%02x-junk-then-ddb' % c, 'unsafe', extra=('junk words%sddb.x = "1"' % ch,))
+            add('ctrl-%02x-in-ddb-line' % c, 'clean', extra=('ddb.comment = "a%sb"' % ch,))
     add('descriptor-missing', 'unsafe', desc=b'')
     add('descriptor-nul-first', 'unsafe', desc=b'\0' + images.vmdk_desc())
     for ds in (0, 2, 3, 2 ** 32, 2 ** 63, 2 ** 64 - 1):
@@ -842,6 +1000,109 @@ def c03_contents(rng, quick):
     out.append(('text-createtype', b'# x\ncreateType="monolithicSparse"\nRW 1 SPARSE "a"\n' + background('text', 700, rng)))
     out.append(('text-createtype-late', background('text', 700, rng).replace(b'createType', b'creatorType') +
                 b'createType="monolithicSparse"\nRW 1 SPARSE "a"\n'))
+    out += c03_structured(rng, quick)
+    out += c03_announcing(rng, quick)
+    return out
+
+
+def mbr_tables(rng):
+    """(tag, [four 16-byte entries]): structured partition tables for the boot sector of a polyglot -
+    empty, whole-disk partition starting at LBA 0 (isohybrid style), LBA 1, LBA 63 / 2048, protective,
+    hybrid (protective + ordinary), bootable, type-0 leftovers"""
+    e = images.pte(boot=0, ostype=0, chs=(0, 0, 0), end=(0, 0, 0), lba=0, size=0)
+    P = images.pte
+    big = rng.choice([1, 2048, 0x100000, 0xffffffff])
+    return [
+        ('empty', [e, e, e, e]),
+        ('lba0-whole', [P(boot=0x80, ostype=rng.choice([0x17, 0x83, 0x00 + 0xcd, 0xef]), chs=(0, 1, 0), lba=0, size=big), e, e, e]),
+        ('lba0-second', [e, P(boot=0, ostype=0x83, lba=0, size=big), e, e]),
+        ('lba0-last-plus-efi', [P(boot=0, ostype=0xef, lba=rng.choice([64, 2048]), size=2880), e, e,
+                                P(boot=0x80, ostype=0x17, lba=0, size=big)]),
+        ('lba0-zero-size', [P(boot=0, ostype=0x83, lba=0, size=0), e, e, e]),
+        ('lba0-type0', [P(boot=0, ostype=0, lba=0, size=big), e, e, e]),
+        ('lba1', [P(boot=0, ostype=0x83, lba=1, size=big), e, e, e]),
+        ('lba63', [P(boot=0x80, ostype=0x83, lba=63, size=big), e, e, e]),
+        ('lba2048-two', [P(boot=0x80, ostype=0x83, lba=2048, size=4096), P(boot=0, ostype=0x82, lba=6144, size=big), e, e]),
+        ('protective', [P(boot=0, ostype=0xEE, chs=(0, 2, 0), lba=1, size=0xffffffff), e, e, e]),
+        ('hybrid', [P(boot=0, ostype=0xEE, chs=(0, 2, 0), lba=1, size=2047), P(boot=0x80, ostype=0x83, lba=2048, size=big), e, e]),
+        ('hybrid-lba0', [P(boot=0, ostype=0xEE, chs=(0, 2, 0), lba=1, size=2047), P(boot=0x80, ostype=0x0c, lba=0, size=big), e, e]),
+        ('random', [bytes(rng.getrandbits(8) for _ in range(16)) for _ in range(4)]),
+    ]
+
+
+def with_mbr(data, entries, rng, fat=False):
+    """write a boot sector's partition table and 55AA signature into the first 512 bytes"""
+    b = bytearray(data if len(data) >= 512 else data + bytes(512 - len(data)))
+    b[446:510] = b''.join(entries)
+    b[510:512] = b'\x55\xaa'
+    if fat:
+        b[0x10], b[0x15] = 2, 0xF8
+    return bytes(b)
+
+
+def c03_structured(rng, quick):
+    """polyglots with structured content rather than bare signatures: every MBR table kind inside an ISO's
+    system area, inside the other formats' images, and on plain backgrounds"""
+    out = []
+    iso = images.iso(total=34 * K)[0]
+    udf = images.iso(ident=rng.choice([b'NSR02', b'NSR03']), total=34 * K)[0]
+    tables = mbr_tables(rng)
+    for tag, ents in tables:
+        out.append(('mbr-%s-in-iso' % tag, with_mbr(rng.choice([iso, iso, udf]), ents, rng)))
+    for tag, ents in (rng.sample(tables, 4) if quick else tables):
+        out.append(('mbr-%s-on-zeros' % tag, with_mbr(bytes(rng.choice([512, 1024])), ents, rng)))
+        host = rng.choice(['vdi', 'qcow2', 'vhd', 'luks', 'qed', 'vmdk'])
+        kw = {'body_len': 40} if host == 'luks' else {}
+        out.append(('mbr-%s-in-%s' % (tag, host), with_mbr(images.clean(host, **kw)[0], ents, rng)))
+    out.append(('mbr-lba0-whole-in-iso-fat', with_mbr(iso, tables[1][1], rng, fat=True)))
+    out.append(('mbr-lba0-whole-in-iso+vdi', overlay(with_mbr(iso, tables[1][1], rng), ['vdi'], rng)))
+    out.append(('mbr-lba0-whole-in-iso+qcow2hdr', with_mbr(images.qcow2(total=512)[0] + iso[512:], tables[1][1], rng)))
+    return out
+
+
+def c03_announcing(rng, quick):
+    """short / truncated streams of every format whose header announces a later structure (VMDK footer
+    flag and descriptor location, VHDX region table and metadata pointers, qcow2 backing file, LUKS payload,
+    ISO descriptor): nothing may escape from the reads, close() or detect_file_format, and there is always a
+    decision after close"""
+    out = []
+    # VMDK: a header that announces a footer (gdOffset all ones), with and without a sane descriptor location
+    for tag, kw in [('footer', dict(footer=True)), ('footer-v3', dict(footer=True, ver=3)),
+                    ('footer-desc-misplaced', dict(footer=True, desc_sec=7)),
+                    ('footer-bigdesc', dict(footer=True, desc_num=2 ** 40)),
+                    ('footer-badver', dict(footer=True, ver=9)), ('plain', dict())]:
+        img = images.vmdk(body=100, **kw)[0]
+        lens = [64, 65, 100, 511, 512, 513, 575, 576, 577, 600, 638, 639, 640, 1024, 1535, 1536, 1537, 2047, 2048, 2100]
+        for n in (rng.sample(lens, 7) if quick else lens):
+            out.append(('vmdk-%s-trunc-%d' % (tag, n), img[:n]))
+    hdr = images.sparse_header(gd=GD_AT_END, desc_num=1)
+    for n in (64, 80, 575):
+        out.append(('vmdk-footer-header-only-%d' % n, (hdr + b'\xee' * 600)[:n]))
+    # the C02 truncation families (every structure boundary of every format)
+    its = [it for it in c02_items(rng, True) if '/trunc@' in it['label'] and len(it['data']) <= 64 * K]
+    for it in (rng.sample(its, 25) if quick else its):
+        out.append(('trunc-' + it['label'], it['data']))
+    out.append(('qcow2-backing-announced', images.qcow2(bf_offset=2 ** 40, bf_size=1000, total=512)[0]))
+    out.append(('luks-payload-beyond-eof', images.luks(payload_offset=2 ** 31, body_len=0)[0]))
+    return out
+
+
+def c03_announcing_huge(rng, quick):
+    """VHDX: region table / metadata entries pointing at structures the (truncated) stream does not hold"""
+    out = []
+    full = images.vhdx(tail=8, meta_off=0x50000, item_off=0x10000)[0]
+    H = 192 * K
+    cuts = [H + 16, H + 64 * K, 0x50000, 0x50000 + 31, 0x50000 + 32, 0x50000 + 200, 0x60000, 0x60000 + 4, 0x60000 + 8]
+    for n in (rng.sample(cuts, 3) if quick else cuts):
+        out.append(('vhdx-trunc-%d' % n, full[:n]))
+    far = bytearray(full[:H + 64 * K + 100])
+    far[H + 64:H + 72] = struct.pack('<Q', 2 ** 40)          # metadata region pointer of region-table entry 1
+    out.append(('vhdx-meta-pointer-far', bytes(far)))
+    if not quick:
+        beyond = bytearray(full[:0x61000])
+        beyond[0x50000 + 32 + 64 + 16:0x50000 + 32 + 64 + 20] = struct.pack('<I', 0xfff00000)   # item offset of entry 2
+        out.append(('vhdx-item-beyond', bytes(beyond)))
+        out.append(('vhdx-vmdk-footer-polyglot', overlay(full[:0x50100], ['gpt'], rng)))
     return out
 
 
@@ -886,6 +1147,7 @@ def c03_huge_contents(rng, quick):
         out.append(('image-vhdx-with-gpt', overlay(images.vhdx(tail=8)[0], ['gpt'], rng)))
         out.append(('image-vhdx-bad-regi', images.vhdx(regi=0x12345678, tail=8)[0]))
         out.append(('sig-qcow2+iso-zero-%d' % (256 * K + 1), overlay(bytes(256 * K + 1), ['iso', 'qcow2'], rng)))
+    out += c03_announcing_huge(rng, quick)
     return out
 
 
